@@ -3,7 +3,7 @@
 // VF-RULE: E2 (spaces disc:<family>): every combination of class count x discretisation scheme x median flag x restriction x parameter point of a fixed lattice; one case = construct, setMedian, restrictToConstraint, then every clause of the statement is judged on the resulting state (class count, p>=0, sum, strictly increasing values inside their own class, ordered bounds inside the reported domain, class mass = parent's own cumulative mass over the class relative to the mass of the reported domain, equal masses, mean of mean-valued classes, value look-up at every bound / class value / midpoint, the four cumulative queries, copy/assign independence). Spaces parent:<family>: the parent's pProb/qProb/Expectation on a 128+129-point grid of every reported domain (monotone, inverse, integrated derivative relation). Spaces compound:*: constant / simple / invariant-mixed / mixture over their own lattices, judged on normalisation and class count only. E1 (hist:*): breadth-first closure of the state graph of ONE live object under setParameterValue / setParametersValues / matchParametersValues / setNumberOfCategories / setMedian / restrictToConstraint (four nested and overlapping sub-intervals) / replace-by-copy / replace-by-assigned, with the same audit in every state and two query operations (look-up audit, copy-independence audit). A case is non-trivial when it has >= 2 classes over a domain of positive mass (E2) or the transition changed the canonical state (E1).
 // VF-BOUND: class counts {1,2,3,4,5,8,16,32}; schemes {equal-probability, equal-interval, equal-probability-when-possible}; shapes/rates/scales in {0.1,0.5,1,3,10,100} (thorough: {0.1,0.2,0.5,1,2,3,5,10,30,100}); locations (gaussian mean, gamma offset) in {0,0.5,3,100,-1} / {0,0.5,3,-1}; six restrictions per parameter point defined from the closed-form mean and standard deviation; E1: 2-3 values per parameter, class counts {1,2,4} (thorough {1,2,3,4,5,8,16,32}), four restriction intervals, closure of the state graph (histories of any length over that alphabet) per family and scheme
 // VF-LEVEL: bounded-exhaustive execution of the real classes on the stated lattices and closed state graphs; the class masses and means are judged against the object's own parent functions (as the statement says), the parent functions against each other on a grid; nothing is known about parameter values, intervals or class counts outside the lattices
-// VF-ASSUME: the parent's cumulative function is accurate to 4e-8 absolute and cumulative/quantile are inverse to 1e-5 in probability units on the lattice (the series in incompleteGamma is truncated at 1e-8; property C08 judges these functions against an external reference);; a class value may leave its class interval by (k+1) times the value resolution the object itself declares (precision(), 1e-12 or 1e-20), which is how far the library's boundary adjustment and duplicate separation move it;; the domain is taken as the object reports it (no history-independence of the domain is demanded);; the scheme of the families whose constructor does not expose it is set by a trivial client subclass that assigns the protected member and calls discretize()
+// VF-ASSUME: the parent's cumulative function is accurate to 4e-8 absolute and cumulative/quantile are inverse to 1e-5 in probability units on the lattice (the series in incompleteGamma is truncated at 1e-8; property C08 judges these functions against an external reference);; a class value may leave its class interval by (k+1) steps of the value resolution the object itself declares (precision(), 1e-12 or 1e-20) or of the double grid at that value, whichever is coarser, which is how far the boundary adjustment and duplicate separation of the library move it; a computed bound or quantile is granted the change of the cumulative function over +-2 steps of the double grid;; the domain is taken as the object reports it (no history-independence of the domain is demanded);; the scheme of the families whose constructor does not expose it is set by a trivial client subclass that assigns the protected member and calls discretize()
 // VF-TECHNIQUE: exhaustive lattice enumeration and state-graph closure with a clause-by-clause oracle built on the parent functions
 // VF-BUDGET_QUICK: 900
 // VF-BUDGET_THOROUGH: 7200
@@ -21,10 +21,11 @@ static std::string pstr(Fam f, const std::vector<double>& p) {
 }
 static const char* schemeName(short s) { return s == 1 ? "equal-prob" : s == 2 ? "equal-interval" : "equal-prob-when-possible"; }
 
-// copy-construction and assignment give an equal, independent object
-static void auditCopies(Fam f, const ADD& d, short scheme, vf::Case& c, const std::string& ctx) {
+// copy-construction and assignment give an equal object with its own domain object; with mutate=true (E1 query operation only, so that a
+// failure inside the re-discretisation of the COPY is not blamed on the state under audit in E2) the copies are then modified and the
+// original must not move
+static void auditCopies(Fam f, const ADD& d, short scheme, vf::Case& c, const std::string& ctx, bool mutate) {
   std::string before = canonOf(d);
-  const char* dsite = d.median_ ? "discretize:median" : "discretize:mean";
   c.site("copy/assign");
   std::unique_ptr<ADD> cp(dynamic_cast<ADD*>(d.clone()));
   double dp[3] = {2, 2, 0}; if (f == F_UNIF) { dp[0] = -5; dp[1] = 5; } if (f == F_TEXP) dp[1] = 7;
@@ -33,10 +34,14 @@ static void auditCopies(Fam f, const ADD& d, short scheme, vf::Case& c, const st
   if (canonOf(*cp) != before) c.fail("copy|copy-constructed-object-differs", ctx + " | original " + before + " | copy " + canonOf(*cp));
   if (canonOf(*as) != before) c.fail("copy|assigned-object-differs", ctx + " | original " + before + " | assigned " + canonOf(*as));
   if (cp->intMinMax_.get() == d.intMinMax_.get() || as->intMinMax_.get() == d.intMinMax_.get()) c.fail("copy|domain-object-shared-with-the-copy", ctx);
-  // mutate the copies; the original must not move
+  if (!mutate) return;
   size_t k2 = d.getNumberOfCategories() == 2 ? 3 : 2;
-  c.site(dsite);
-  try { cp->setNumberOfCategories(k2); as->setNumberOfCategories(k2); } catch (Exception&) {}
+  c.site(d.median_ ? "discretize:median" : "discretize:mean");
+  try {
+    cp->setNumberOfCategories(k2); as->setNumberOfCategories(k2);
+    double lo = d.getLowerBound(), hi = d.getUpperBound();
+    if (std::isfinite(lo) && std::isfinite(hi) && std::fabs(lo) < 1e22 && std::fabs(hi) < 1e22) { IntervalConstraint ic(lo + (hi - lo) / 4, hi, true, true); cp->restrictToConstraint(ic); as->restrictToConstraint(ic); }
+  } catch (Exception&) {}
   c.site("copy/assign");
   if (canonOf(d) != before) c.fail("copy|original-changed-when-copy-was-modified", ctx + " | before " + before + " | after " + canonOf(d));
 }
@@ -72,7 +77,7 @@ static void discSpace(vf::Runner& R, Fam f, bool th) {
     auditLookup(*d, c, ctx);
     c.site("cumulative");
     auditCumulative(*d, c, ctx);
-    auditCopies(f, *d, scheme, c, ctx);
+    auditCopies(f, *d, scheme, c, ctx, false);
     double M = d->pProb(d->getUpperBound()) - d->pProb(d->getLowerBound());
     if (k >= 2 && M > 0) c.nontrivial();
     c.tag(std::string("scheme=") + schemeName(scheme) + (med ? ",median" : ",mean") + (iv.any ? ",restricted" : ""));
@@ -330,7 +335,7 @@ struct ContSys : vf::SysBase {
     std::string ctx = std::string(FAMNAME[f]) + " " + schemeName(scheme) + " after [" + on + "] from {" + before + "}";
     AuditOpt ao{kreq, med, scheme, f};
     if (o.kind == O_QLOOKUP) { c.site("lookup"); auditLookup(*A, c, ctx); c.tag("query:lookup"); return; }
-    if (o.kind == O_QINDEP) { auditCopies(f, *A, scheme, c, ctx); c.tag("query:copy-independence"); return; }
+    if (o.kind == O_QINDEP) { auditCopies(f, *A, scheme, c, ctx, true); c.tag("query:copy-independence"); return; }
     c.site("audit");
     if ((o.kind == O_COPY || o.kind == O_ASSIGN) && canon().substr(canon().find("|kreq")) != before.substr(before.find("|kreq")))
       c.fail(o.kind == O_COPY ? "copy|copy-constructed-object-differs" : "copy|assigned-object-differs", ctx + " | now " + canon());
@@ -441,7 +446,7 @@ int main(int argc, char** argv) {
   R.expectSeen("lookup-checked");
   R.expectSeen("parent-grid-checked");
   R.note("domain taken as the object reports it; class masses and means are judged against the object's own pProb/Expectation relative to the mass of the reported domain");
-  R.note("a class value may leave its class interval by (k+1)*precision(): the library's boundary adjustment and duplicate separation move values by that much by design");
+  R.note("a class value may leave its class interval by (k+1) steps of precision() or of the double grid, whichever is coarser: the boundary adjustment and duplicate separation of the library move values by that much by design");
   R.note("look-up: a value on a bound may be reported in either adjacent class; getCategoryIndex may count from 0 or from 1, but must do so consistently over all test points of a state");
   R.note("domains whose mass is zero in double precision are judged on the structural clauses only (mass and mean clauses are undefined there)");
   R.note("compounds (constant, simple, invariant-mixed, mixture) are judged on class count = class list, p>=0, sum=1, cumulative queries; their bounds are not judged; setNumberOfCategories is not applied to constant/simple (a user-specified class list has no other class count)");
